@@ -168,7 +168,13 @@ func genC08(tier string, r *Rng, emit func(Case)) {
 		t.i(flags)
 		t.i(width)
 		t.i(prec)
-		t.i(r.Pick(verbs))
+		verb := r.Pick(verbs)
+		if r.Intn(6) == 0 {
+			// any letter may be tried as a verb (fmt itself handles %T, %p and %w before calling Format)
+			verb = r.Pick([]int{'a', 'b', 'c', 'h', 'i', 'j', 'k', 'l', 'm', 'n', 'o', 'r', 't', 'u', 'y',
+				'A', 'B', 'C', 'D', 'H', 'I', 'J', 'K', 'L', 'M', 'N', 'O', 'P', 'Q', 'R', 'S', 'V', 'W', 'X', 'Y', 'Z', 'ß', 'É', '0' + 0x1D7CE - '0'})
+		}
+		t.i(verb)
 		emit(Case{Ver: ver, Op: "Fmt", Args: t})
 	}
 }
